@@ -36,7 +36,8 @@ archive_case = st.fixed_dictionaries({
     "system": S.hierarchical_system(nmin=2, nmax=3),
     "cfg": S.integrator_config(BITWISE_FAMS),
     "dt_frac": st.sampled_from([0.02, 0.05]),
-    "mode": st.sampled_from(["manual", "manual", "step"]),
+    "mode": st.sampled_from(["manual", "manual", "step", "interval", "interval"]),
+    "backward": st.booleans(),
     "gaps": st.lists(st.integers(1, 6), min_size=2, max_size=4),
     "step": st.integers(2, 5),
     "ops_between": st.lists(st.sampled_from(["none", "none", "add", "remove", "dt"]), min_size=4, max_size=4),
@@ -58,7 +59,7 @@ def make_sim(case):
                 setattr(getattr(sim, fam), "keep_unsynchronized", 1)
             else:
                 setattr(getattr(sim, fam), "safe_mode", 1)
-    sim.dt = case["dt_frac"] * sysd["P_min"]
+    sim.dt = case["dt_frac"] * sysd["P_min"] * (-1.0 if case.get("backward") else 1.0)
     return sim
 
 
@@ -81,6 +82,14 @@ def between(sim, op, j):
         sim.ri_saba.keep_unsynchronized = 0
         sim.synchronize()
         sim.dt = sim.dt * 0.5
+
+
+def arm(sim, case, path):
+    """(Re-)attach the automatic snapshots with the cadence of the case (what a user does first, and again on restart)."""
+    if case["mode"] == "step":
+        sim.save_to_file(path, step=case["step"])
+    else:
+        sim.save_to_file(path, interval=(case["step"] + 0.37) * abs(case["dt_frac"] * case["system"]["P_min"]))
 
 
 def uninterrupted(case, path, upto=None, start_sim=None, start_k=0):
@@ -115,7 +124,7 @@ def uninterrupted(case, path, upto=None, start_sim=None, start_k=0):
             if n != last[0]:
                 last[0] = n
                 images.append(open(path, "rb").read())
-        sim.save_to_file(path, step=stepI)
+        arm(sim, case, path)
         sim.heartbeat = hb
         target_steps = nsteps_total
         # integrate a whole number of steps (no exact finishing: bitwise restart)
@@ -300,7 +309,7 @@ def run_crashcut(case, ctx):
             # resume after snapshot n-1
             imgs, _ = uninterrupted(case, cpath, start_sim=sim, start_k=n)
         else:
-            sim.save_to_file(cpath, step=case["step"])
+            arm(sim, case, cpath)
             sim.integrate(case["_tmax"], exact_finish_time=0)
         sa2 = rebound.Simulationarchive(cpath)
         if sa2.nblobs != len(ref_maps):
@@ -380,6 +389,9 @@ def run_crashcut(case, ctx):
         name = "restart/done" if c == "restart" else "cut/" + c
         ctx.classes[name] = ctx.classes.get(name, 0) + v
         ctx._cur_classes.append(name)
+    ctx.cls("mode/" + case["mode"])
+    if case.get("backward"):
+        ctx.cls("backward")
     ctx.stat_max("images_per_archive", len(work))
     # evidence counts IMAGES: each (archive, write, kind, offset) is one evaluation; non-trivial = the cut lies
     # strictly inside a snapshot (every generated image does: boundary images are the intact files)
@@ -467,7 +479,7 @@ def run_asan(case, ctx):
 
 def subs(tier):
     return [
-        Sub("crashcut", run_crashcut, strategy=archive_case, quick=16, thorough=480, shards_quick=16,
+        Sub("crashcut", run_crashcut, strategy=archive_case, quick=24, thorough=480, shards_quick=16,
             shards_thorough=16, timeout_quick=600),
         Sub("asan_reader", run_asan, strategy=archive_case, quick=8, thorough=160, shards_quick=4,
             shards_thorough=16, timeout_quick=600),
